@@ -848,6 +848,35 @@ def replay_real(case):
                     bad.append(f'window {[l, r]} does not contain its estimate {c}')
                 elif l < r and ((i > 0 and l < cs[i - 1] + (c - cs[i - 1]) * fac - 1e-12 * abs(c)) or (i < npk - 1 and r > cs[i + 1] - (cs[i + 1] - c) * fac + 1e-12 * abs(c))):
                     bad.append(f'window {[l, r]} of estimate {c} too close to a neighbouring estimate ({cs})')
+    elif kind == 'remove' and case.get('signature', '').startswith('C17:remove:values'):
+        # hand-made fit results: window bounds on grid values, between grid values, on the ends of the data
+        from scippneutron.peaks import model as pm
+        pk, bk = pm.LorentzianModel(prefix='peak_'), pm.PolynomialModel(degree=1, prefix='bkg_')
+        x = np.arange(0.0, 21.0)
+        y = 5.0 + 0.1 * x
+        plain = sc.DataArray(sc.array(dims=['x'], values=y.copy()), coords={'x': sc.array(dims=['x'], values=x)})
+        for lo_, hi_ in ((8.0, 14.0), (8.5, 13.5), (0.0, 5.0), (15.0, 20.0), (3.0, 3.0), (-5.0, 2.0), (18.0, 30.0)):
+            popt = {'peak_amplitude': sc.scalar(3.0, variance=1.0), 'peak_loc': sc.scalar((lo_ + hi_) / 2, variance=1.0), 'peak_scale': sc.scalar(2.0, variance=1.0),
+                    'bkg_a0': sc.scalar(5.0), 'bkg_a1': sc.scalar(0.1)}
+            mk = lambda a_, l_, h_: peaks.FitResult(aic=sc.scalar(0.0), assessment=a_, background=bk, message='', p_value=sc.scalar(1.0), peak=pk, popt=popt,  # noqa: E731,B023
+                                                    red_chisq=sc.scalar(1.0), window=sc.array(dims=['range'], values=[l_, h_]))
+            res = [mk(peaks.FitAssessment.success, lo_, hi_), mk(peaks.FitAssessment.p_too_small, 0.0, 20.0)]
+            keep = plain.copy()
+            try:
+                out = peaks.remove_peaks(plain, res)
+            except Exception as e:  # noqa: BLE001
+                bad.append(f'remove_peaks raises {type(e).__name__} for window [{lo_}, {hi_})')
+                continue
+            if not sc.identical(plain, keep):
+                bad.append('remove_peaks modified its input')
+            inside = (x >= lo_) & (x < hi_)
+            mu_ = (lo_ + hi_) / 2
+            exp = np.where(inside, y - 3.0 * 2.0 / np.pi / ((x - mu_) ** 2 + 4.0), y)
+            if not np.array_equal(out.values[~inside], y[~inside]):
+                i_ = int(np.flatnonzero(out.values != np.where(inside, out.values, y))[0])
+                bad.append(f'window [{lo_}, {hi_}): point x={x[i_]} outside the window changed from {y[i_]!r} to {out.values[i_]!r}')
+            elif not np.allclose(out.values, exp, rtol=1e-12, atol=0):
+                bad.append(f'window [{lo_}, {hi_}): inside values are not data - peak')
     elif kind in ('windows', 'loop', 'stats', 'remove'):
         da = mkdata(300)
         est = sc.array(dims=['x'], values=[2.0, 5.0, 5.6, 9.9])
